@@ -274,8 +274,9 @@ def compare(r0, r1, expect, atol=1e-8, tol_m=1e-10, gas=False, sections0=None, s
       pressures 1e-8; mass flows 1e-8 + stalled flows; temperatures 1e-8 + 40 tol_m / min|m|;
       a column X that is a function of the row's flow m (v, vdot, Re, lambda, normfactor, friction loss) moves by at most
       |X| dm/|m| when m moves by dm (X ~ m, lambda ~ c + 64/Re, dp ~ m|m|: factor 2), so |X|(3 atol_m/|m| + 1e-7); rows
-      with |m| < 1e-6 are not compared on such columns.
-    sections0 / sections1: {pipe label: sections} of the two descriptions (friction loss of a multi-section pipe).
+      with |m| < 1e-6 are not compared on such columns.  (Grouped sums are np.add.reduceat since /repo fafb76b: plain
+      round-off, covered by the 1e-7 relative term.)
+    sections0 / sections1: {pipe label: sections} of the two descriptions (kept for callers; not needed any more).
     Returns a list of (table, column, label, original, rewritten)."""
     diffs = []
     atol_m = atol + 4.0 * stalled_flow(r0, r1)
@@ -289,21 +290,6 @@ def compare(r0, r1, expect, atol=1e-8, tol_m=1e-10, gas=False, sections0=None, s
     row_map = expect.get("row_map", {})
     series = expect.get("series", {})
     sections0, sections1 = sections0 or {}, sections1 or {}
-
-    # rounding of the per-element sums: _sum_by_group_sorted forms cumsum(values)[last of group] - cumsum[last of previous
-    # group], so every per-pipe mean carries an absolute error of about eps * (sum of |value| over ALL sections of the
-    # table) - a pipe with a stalled flow (lambda = 64/Re ~ 1e8) costs every other pipe digits.  Derived allowance:
-    def cumsum_bound(r, secs):
-        t = r.get("res_pipe")
-        out = {}
-        if t:
-            for col in MEAN_COLS + (DPF,):
-                if col in t["cols"]:
-                    out[col] = 8 * 2.2e-16 * sum(abs(v) * secs.get(l, 1) for l, v in zip(t["index"], t["cols"][col])
-                                                 if v is not None)
-        return out
-    b0, b1 = cumsum_bound(r0, sections0), cumsum_bound(r1, sections1)
-    round_pipe = {col: max(b0.get(col, 0.0), b1.get(col, 0.0)) for col in set(b0) | set(b1)}
 
     def tol_of(col, x, m_row):
         k = KIND.get(col, "d")
@@ -335,8 +321,6 @@ def compare(r0, r1, expect, atol=1e-8, tol_m=1e-10, gas=False, sections0=None, s
             # to be p_from of the *declared* direction, so normfactor_mean, hence v_mean, depends on the orientation by
             # up to 1e-5 relative - the code's own regularisation threshold
             t += 1.1e-5 * abs(x)
-        if t is not None and tbl == "res_pipe":
-            t += round_pipe.get(col, 0.0) * (max(sections0.get(lab, 1), 1) if name.endswith("consistency") else 1)
         if t is not None and not (x == y or abs(x - y) <= t):
             diffs.append((tbl, name, lab, x, y))
 
@@ -377,17 +361,11 @@ def compare(r0, r1, expect, atol=1e-8, tol_m=1e-10, gas=False, sections0=None, s
                     ys = [_get(r1, tbl, col, pc) for pc in pieces]
                     y = "absent" if any(v == "absent" for v in ys) else None if any(v is None for v in ys) \
                         else sum(ys) / len(ys)
-                elif col == DPF and name == "pipe" and (pieces or sections0.get(lab, 1) != sections1.get(lab1, 1)):
-                    # friction loss of the element: the rewritten description is the sum over its pieces / its one
-                    # section; the code reports the mean over the sections of a pipe
-                    ys = [_get(r1, tbl, col, pc) for pc in (pieces or [lab1])]
-                    n0 = sections0.get(lab, 1)
-                    n1 = 1 if pieces else sections1.get(lab1, 1)
-                    if any(v == "absent" or v is None for v in ys) or x is None:
-                        y = "absent" if any(v == "absent" for v in ys) else None
-                    else:
-                        check(tbl, lab, DPF + "_mean_consistency", col, x * n0, sg * sum(ys) * n1, m_row)
-                        y = sum(ys)
+                elif col == DPF and pieces:
+                    # friction loss of the element = sum over the pieces of the series (n sections = 1 section = series sum;
+                    # with equal labels the plain comparison below applies)
+                    ys = [_get(r1, tbl, col, pc) for pc in pieces]
+                    y = "absent" if any(v == "absent" for v in ys) else None if any(v is None for v in ys) else sum(ys)
                 else:
                     y = _get(r1, tbl, col1, l1)
                 if y not in ("absent", None):
